@@ -763,7 +763,10 @@ theorem interp_lock (reg : Registry) : ∀ f : Nat,
 /-! ### Top level -/
 
 theorem write_lock_top (reg : Registry) (fuel : Nat) (nodes : List Node) : LockOK (write reg fuel nodes) := by
-  unfold write
+  suffices hb : LockOK (writeBody reg fuel nodes) by
+    intro k s h
+    exact hb k s.topStart h
+  unfold writeBody
   have t : Tri (writeTree reg fuel nodes) :=
     ⟨(interp_lock reg fuel).1 nodes, (interp_frame reg fuel).1 nodes, (Frozen.interp_mono reg fuel).1 nodes⟩
   have t2 : Tri (fun st : St => ok { st with c := st.c.runDeferred }) := by
@@ -785,7 +788,8 @@ theorem writeKey_frozen (reg : Registry) (fuel : Nat) (key : Bytes) : Frozen.Mon
   cases reg.lookup key with
   | none => exact fun _ => Frz.refl _
   | some nodes =>
-    unfold write
-    exact Frozen.Mono.andThen ((Frozen.interp_mono reg fuel).1 nodes) (fun _ => Frz.refl _)
+    intro s
+    unfold write writeBody
+    exact Frozen.Mono.andThen ((Frozen.interp_mono reg fuel).1 nodes) (fun _ => Frz.refl _) s.topStart
 
 end DyntplV
